@@ -258,10 +258,32 @@ func (eng *Engine) checkCallers(d *StructDecl, r *StructResult) {
 		}
 	}
 	have := eng.callersOf(callee)
+	// A caller that is not listed is acceptable when it is a helper without a contract of its own (it is
+	// inlined into its callers) all of whose callers are acceptable in turn: extracting part of a listed
+	// function into a helper does not change who, in the end, calls the callee.
+	var okHelper func(h string, depth int) bool
+	okHelper = func(h string, depth int) bool {
+		if allowed[h] {
+			return true
+		}
+		if depth > 4 || strings.HasSuffix(h, "(value)") || eng.hasContractShort(h) {
+			return false
+		}
+		cs := eng.callersOf(h)
+		if len(cs) == 0 {
+			return false
+		}
+		for c := range cs {
+			if !okHelper(c, depth+1) {
+				return false
+			}
+		}
+		return true
+	}
 	var extra, hv []string
 	for h := range have {
 		hv = append(hv, h)
-		if !allowed[h] {
+		if !okHelper(h, 0) {
 			extra = append(extra, h)
 		}
 	}
@@ -390,4 +412,14 @@ func (eng *Engine) checkLoopExits(d *StructDecl, r *StructResult) {
 		return
 	}
 	r.Detail = "loop not found"
+}
+
+// hasContractShort: does a function, named as callersOf names callers, have a contract of its own?
+func (eng *Engine) hasContractShort(name string) bool {
+	for k, fc := range eng.specs.Funcs {
+		if fc != nil && short(k) == name {
+			return true
+		}
+	}
+	return false
 }
